@@ -10,6 +10,66 @@ from . import stages
 PROPS = stages.PROPS
 
 
+def _episodes(path):
+    """[(episode id, [lines])] of a trace, in order; lines before the first begin go to a pseudo episode."""
+    out = []
+    cur = ('', [])
+    with open(path, errors='replace') as f:
+        for line in f:
+            if not line.strip():
+                continue
+            if line.startswith('{"e":"begin"') or line.startswith('{"e":"thread"'):
+                if cur[1]:
+                    out.append(cur)
+                try:
+                    cur = (json.loads(line).get('id', ''), [line])
+                except Exception:
+                    cur = ('?', [line])
+            else:
+                cur[1].append(line)
+    if cur[1]:
+        out.append(cur)
+    return out
+
+
+def _judge_pair_chunked(pid, x, y, tag, limit=12 << 20):
+    """TraceSame loads both logs: judge them in aligned chunks of whole episodes (at most ~12 MB of the first log each)."""
+    core.clean_trace(x)
+    core.clean_trace(y)
+    ex, ey = _episodes(x), _episodes(y)
+    by_id = {}
+    for i, (eid, lines) in enumerate(ey):
+        by_id.setdefault(eid, []).append(lines)
+    res = {'events': 0, 'fails': [], 'counts': {}, 'dropped_lines': 0}
+    chunks = []
+    cur_a, cur_b, size = [], [], 0
+    for eid, lines in ex:
+        other = by_id.get(eid, [])
+        cur_a += lines
+        cur_b += other.pop(0) if other else []
+        size += sum(len(l) for l in lines)
+        if size >= limit:
+            chunks.append((cur_a, cur_b))
+            cur_a, cur_b, size = [], [], 0
+    left = [l for v in by_id.values() for ls in v for l in ls]          # episodes only the second log has
+    if cur_a or left:
+        chunks.append((cur_a, cur_b + left))
+    for k, (la, lb) in enumerate(chunks):
+        pa, pb = '%s.c%d.A' % (x, k), '%s.c%d.B' % (x, k)
+        open(pa, 'w').writelines(la)
+        open(pb, 'w').writelines(lb if lb else ['{"e":"begin","id":"_none_","comp":""}\n'])
+        if not la:
+            open(pa, 'w').write('{"e":"begin","id":"_none_","comp":""}\n')
+        j = core.judge('TraceSame', pa, '%s.c%d' % (tag, k), nchunks=1, env={'TRACE2': pb, 'PROP': pid}, second=pb)
+        res['events'] += j['events']
+        res['fails'] += j['fails']
+        for c, v in j['counts'].items():
+            res['counts'][c] = res['counts'].get(c, 0) + v
+        os.remove(pa)
+        os.remove(pb)
+    return res
+
+
 def _pair_judge(pid, tag, stage, cases, nchunks=None):
     """Stages that compare two executions of the same workload (C19: alone vs concurrent; C20: two heap fill
     patterns, and a run under memcheck).  The cases are split into parts that run and are judged side by side."""
@@ -63,8 +123,11 @@ def _pair_judge(pid, tag, stage, cases, nchunks=None):
                                           '--child-silent-after-fork=no --trace-children=no')
                     pairs.append((a, v))
             for x, y in pairs:
-                j = core.judge('TraceSame', x, '%s.p%d.r%d.%s' % (tag, k, r, os.path.basename(y)[-1]), nchunks=1,
-                               env={'TRACE2': y, 'PROP': pid}, second=y)
+                if mode == 'threads':
+                    j = core.judge('TraceSame', x, '%s.p%d.r%d.%s' % (tag, k, r, os.path.basename(y)[-1]), nchunks=1,
+                                   env={'TRACE2': y, 'PROP': pid}, second=y)
+                else:
+                    j = _judge_pair_chunked(pid, x, y, '%s.p%d.r%d.%s' % (tag, k, r, os.path.basename(y)[-1]))
                 res['events'] += j['events']
                 res['fails'] += j['fails']
                 for c, v in j['counts'].items():
